@@ -106,6 +106,9 @@ def cases(rng, tier, shard, nshards):
         if rng.random() < 0.1:
             z0 = [0.0, 0.0]              # the default expansion point, exactly
         tree, sing = make_tree(rng, fam)
+        if rng.random() < 0.08:
+            # the same function in other units (Planck's constant, a mass in kg ...): nothing in the statement knows an absolute scale
+            tree = ('mul', ('c', float(10.0 ** (rng.uniform(-40, -14) if rng.random() < 0.7 else rng.uniform(12, 30)))), tree)
         if rng.random() < 0.03 and fam != 'poly':
             yield dict(family=fam, tree=tree, singularity=sing, z0=z0, n=int(rng.integers(1, 14)), inner_n=int(rng.integers(1, 14)),
                        nested=True, r=None)
